@@ -192,6 +192,19 @@ def check_metric(case):
         except Exception as ex:
             dis.append({"clause": "Raises", "detail": "%s raised %s: %s" % (what, type(ex).__name__, str(ex)[:60])})
             continue
+        if sub == "default" and pos in ("first", "alone"):
+            # a path that BEGINS with the arc (no leading move): every arc must still be replaced
+            try:
+                path3 = svg.Path(mk(), *[svg.Line(svg.Point(g.start), svg.Point(g.end)) for g in post])
+                (path3.approximate_arcs_with_cubics if degree == "cubic" else path3.approximate_arcs_with_quads)()
+                if any(isinstance(g, svg.Arc) for g in path3):
+                    dis.append({"clause": "ArcLeft", "detail": "%s: a path beginning with the arc still contains an Arc after the conversion: %r" % (what, [type(g).__name__ for g in path3])})
+                else:
+                    chains.append(("path beginning with the arc", list(path3)[:len(path3) - len(post)], True))
+            except engine.CaseTimeout:
+                raise
+            except Exception as ex:
+                dis.append({"clause": "Raises", "detail": "%s (path beginning with the arc) raised %s: %s" % (what, type(ex).__name__, str(ex)[:60])})
         devs = []
         for name, ch, bounded in chains:
             w2 = "%s [%s]" % (what, name)
